@@ -40,7 +40,7 @@ def SPEC(tier):
 
 META = dict(
     technique='bit-exact differential testing between separately compiled GLM configurations (macro / language level / optimisation level / compiler) over a generated operation table',
-    text='The operation table (~3300 instances quick, ~5000 thorough) is compiled once per configuration into its own shared library; identical inputs are run through all of them in one process and every output is '
+    text='The operation table (~4200 instances quick, ~6300 thorough; one case in eight is a two-call history f(x), f(other), f(x)) is compiled once per configuration into its own shared library; identical inputs are run through all of them in one process and every output is '
          'compared bit for bit against the baseline. Quick: 13 configurations; thorough: 35 (all single macros of the statement, 4 combinations, O0/O2/O3, g++ and clang++).',
     note='-ffp-contract=off -fno-fast-math are fixed across the matrix (compiler semantics, not GLM settings). Two NaN results are treated as equal whatever their payload.',
     design='6/C15')
